@@ -65,6 +65,10 @@ FIXED = [
  ("C20", "c20:new-document-stream-length", "a deep-cloned stream gets the /Length of the data it carries", "importing from an AES-encrypted source: copied font-file stream written with the source's stored /Length 96 but 64 bytes of (decrypted) data"),
  ("C20", "c20:crash:stack-overflow", "importing objects that refer to each other in a cycle", "a page entry referring to << /Self x 0 R >> overflowed the stack in clone_plainref"),
  ("C13", "c13:*-shared-resolver-*:panic:*assertion `left == right` failed / process-abort:panic-in-drop-guard / spurious-recursive-reference", "the recursion guard of a shared resolver is kept per thread", "two threads sharing one resolver: thread B's push made thread A's guard pop fail assert_eq inside a destructor (abort, poisoned lock); schedule with two preemptions between push and pop"),
+ ("C15", "c15:Action:written-form-unreadable", "Action::Goto is written with its /S /GoTo entry", "<< /S /GoTo /D [3 0 R /Fit] >> read as Action and written back gave << /D [...] >> (no /S), which Action's reader rejects"),
+ ("C15", "c15:*:not-idempotent:DecodeParms", "streams with several filters are written with a /DecodeParms array", "a stream with /Filter [/ASCIIHexDecode /FlateDecode] /DecodeParms [null << /Columns 7 >>] was written with the Flate parameters as one dictionary, which the next read pairs with ASCIIHexDecode: parameters lost; two parameterised filters ([/FlateDecode /LZWDecode] with parameters each) hit assert!(params.is_none()) in Stream::to_pdf_stream"),
+ ("C15", "c15:AppearanceStreamEntry:written-form-unreadable (nested)", "HashMap writer skips entries whose value writes as null", "appearance dictionary << /On 17 0 R /X << >> >>: the empty nested state dictionary was written as '/X null', which AppearanceStreamEntry's reader rejects"),
+ ("C15", "c15:AppearanceStreamEntry:written-form-unreadable (empty)", "an empty appearance dictionary is written as an empty dictionary", "appearance dictionary << >> was written as null, which AppearanceStreamEntry's reader rejects"),
 ]
 OPEN = [
  ("C20", "c20:resource-missing:ColorSpace", "an imported page whose content names a colour space resource (/CS1 cs) arrives without /ColorSpace: deep_clone_op copies only ExtGState, Font and XObject resources; a repair needs writers for most ColorSpace variants (ColorSpace::to_primitive is unimplemented!() except for three), so it is recorded"),
